@@ -17,6 +17,12 @@ def model_cmd():
     # the extracted list functions recurse deeply on long byte strings: raise the stack limit
     return ['/bin/sh', '-c', 'ulimit -s unlimited 2>/dev/null || ulimit -s 4000000 2>/dev/null; exec "$0"', vlib.MODELDRV]
 
+def model_cost(line):
+    # rough relative cost of a case for the extracted model (used for load balancing only)
+    c = line.split(' ', 1)[0]
+    w = {'table_scan': 6, 'table_get': 4, 'table_iter': 3, 'table_entries': 2, 'table_build': 3}.get(c, 1)
+    return w * len(line)
+
 def run(rep, tier, seed):
     t_start = time.time()
     rng = vlib.Rng(seed)
@@ -38,9 +44,9 @@ def run(rep, tier, seed):
 
     def both(lines, what, cshards=8):
         t0 = time.time()
-        c = vlib.run_lines(k1, lines, env=env, shards=cshards)
+        c = run_balanced(vlib, k1, lines, env=env, shards=cshards)
         t1 = time.time()
-        m = vlib.run_lines(model, lines, shards=vlib.NCPU)
+        m = run_balanced(vlib, model, lines, shards=vlib.NCPU, cost=model_cost)
         timing[what] = [round(t1 - t0, 1), round(time.time() - t1, 1)]
         rep.evaluated(len(lines)); hist[what] = hist.get(what, 0) + len(lines)
         vlib.diff_cases(rep, lines, c, m, what)
@@ -187,8 +193,14 @@ def run(rep, tier, seed):
         if quick and i < 4: n = [0, 1, 2000, 1200][i]
         es = G.gen_entries(rng, tier, cmp, n=n)
         sz = sum(len(e[0]) + len(e[1]) for e in es)
-        if quick and sz > (700 << 10):
-            es = es[:max(1, len(es) * (700 << 10) // sz)]; sz = sum(len(e[0]) + len(e[1]) for e in es)
+        cap = {64: 30 << 10, 256: 60 << 10, 1024: 150 << 10, 4096: 300 << 10, 65536: 700 << 10}[bs] * (1 if quick else 8)
+        if sz > cap and (quick or i < len(combos)):
+            # the list-based model re-walks the file for every block: keep blocks x file size modest
+            acc = 0; keep = []
+            for e in es:
+                if acc + len(e[0]) + len(e[1]) > cap and keep: continue
+                keep.append(e); acc += len(e[0]) + len(e[1])
+            es = keep; sz = acc
         used += sz
         configs.append((bs, ri, comp, bits, cmp, es))
     blines = ['table_build %s %s' % (G.opts_str(bs, ri, comp, bits, cmp), G.entries_arg(es)) for (bs, ri, comp, bits, cmp, es) in configs]
@@ -216,7 +228,8 @@ def run(rep, tier, seed):
         tl.append('table_scan %s %s' % (ropts(), fh)); tm.append(('scan', cfg))
         tl.append('table_entries %s %s' % (ropts(), fh)); tm.append(('entries', cfg))
         # lookups: every present key (sampled for big tables) + absent ones
-        present = keys if len(keys) <= 150 else [rng.choice(keys) for _ in range(150)]
+        npres = 64 if quick else 400
+        present = keys if len(keys) <= npres else [rng.choice(keys) for _ in range(npres)]
         targets = present + G.gen_targets(rng, keys, cmp, 40)
         for j in range(0, len(targets), 64):
             ch = targets[j:j + 64]
@@ -350,18 +363,22 @@ def run(rep, tier, seed):
         aenv = dict(env); aenv['ASAN_OPTIONS'] = 'allocator_may_return_null=1:detect_leaks=0:abort_on_error=0'
         aenv['UBSAN_OPTIONS'] = 'halt_on_error=1:print_stacktrace=1'
         t0 = time.time()
-        ca = vlib.run_lines(k1a, ml, env=aenv, shards=vlib.NCPU)
+        ca = run_balanced(vlib, k1a, ml, env=aenv, shards=vlib.NCPU)
         timing['asan-run'] = round(time.time() - t0, 1)
         rep.evaluated(len(ml)); hist['malformed-asan'] = len(ml)
         crashes = 0
+        suspects = [i for i, o in enumerate(ca) if o.startswith('CRASH')]
+        for i in suspects[:300]:
+            # a shard stops at its first abort: re-run each unexecuted line alone
+            ca[i] = vlib.run_lines(k1a, [ml[i]], env=aenv)[0]
         for line, o, oc in zip(ml, ca, cm):
             if o.startswith('CRASH'):
                 crashes += 1
                 if crashes <= 3:
                     rep.violation({'kind': 'sanitizer-abort', 'case': line[:20000], 'implementation': o[:4000]})
-                break   # the lines after the first abort of a shard were not executed
             elif o != oc:
                 oracle(False, 'asan-vs-plain-output', line, o, oc)
+        hist['sanitizer-aborts'] = crashes
     # classification of the malformed outcomes (coverage information)
     for o in cm:
         k = 'mal:' + ('open-error' if o.startswith('open:') else ('corruption' if 'corruption' in o else ('ioerr' if 'ioerr' in o else ('fail' if o == 'fail' else 'accepted'))))
